@@ -228,7 +228,7 @@ def binary_irrev_cstr(t, k, r, p, fr, fp, fv, n=1, backend=None):
     # Post processed using sympy's cse function.
     # (see _derive_analytic_cstr_bireac.ipynb)
     be = get_backend(backend)
-    atanh = getattr(be, "atanh", be.arctanh)
+    atanh = be.atanh if hasattr(be, "atanh") else be.arctanh
     three = 3 * be.cos(0)
 
     x0 = 1 / k
